@@ -911,7 +911,10 @@ class BinaryDataEncoding(DataEncoding):
 
         if self.linear_adjuster is not None:
             len_bits = self.linear_adjuster(len_bits)
-        return len_bits
+        # Discrete lookup values and calibrated reference values are floats
+        if not float(len_bits).is_integer():
+            raise ValueError(f"Computed a non-integer length in bits ({len_bits}) for binary field {self}.")
+        return int(len_bits)
 
     def parse_value(self, packet: packets.CCSDSPacket) -> common.BinaryParameter:
         """Parse a value from packet data, possibly using previously parsed data items to inform parsing.
